@@ -391,6 +391,18 @@ Theorem C02_generated_GetParams_rule : forall lastProcessedBlock lastSentCertifi
   if negb (GoNum.err_eqb e4 GoNum.EOK) then (None, GoNum.err_wrap e4) else (r, GoNum.EOK).
 Proof. exact GenAgreeGetParams.GetParams_rule. Qed.
 
+(* the aggchain-prover flow asks the prover to prove from the block after getLastProvenBlock: GENERATED from flow_aggchain_prover.go
+   on every run, it is max(start block, first block - 1) in a run of the flow (first block = last certificate's end + 1), and the
+   start block for a first certificate - the model's build_fep asks the prover for (first block - 1, end) *)
+From Verif Require Gen.GenLastProven Proofs.GenAgreeProverFlow.
+Theorem C02_generated_getLastProvenBlock_closed_form : forall (start from : N) (last : option GenLastProven.CertificateHeader),
+  (from < GoNum.U64)%N ->
+  GenLastProven.getLastProvenBlock start from last =
+  (if from =? 0 then start
+   else if match last with Some h => GenLastProven.CertificateHeader_ToBlock h <? start | None => false end then start
+   else N.max start (from - 1))%N.
+Proof. exact GenAgreeProverFlow.getLastProvenBlock_closed_form. Qed.
+
 Print Assumptions C02_Inv_init.
 Print Assumptions C02_step_preserves_Inv.
 Print Assumptions C02_reachable_Inv.
@@ -416,3 +428,4 @@ Print Assumptions C02_generated_decides_height_and_previous_root.
 Print Assumptions C02_generated_decides_first_block_and_retry.
 Print Assumptions C02_generated_verifyRetryCertStartingBlock_rule.
 Print Assumptions C02_generated_GetParams_rule.
+Print Assumptions C02_generated_getLastProvenBlock_closed_form.
